@@ -17,63 +17,73 @@ theorem hdr_size_le (h : UInt16) : ((h &&& 0x7FFF).toUInt32).toNat ≤ 32767 := 
     rw [UInt16.toNat_and]; exact Nat.and_le_right
   simpa using this
 
+theorem cleared_le : MetaSt.cleared.dataUsed.toNat ≤ metaCap := by decide
+
+theorem seekG_spec (fixed : Bool) (c : MetaCfg) (hc : MetaCodecOk c) (m : MetaSt) (b o : UInt64)
+    (hm : m.dataUsed.toNat ≤ metaCap) :
+    (∀ a ∈ (seekG fixed c m b o).acc, a.inBounds) ∧ (seekG fixed c m b o).st.dataUsed.toNat ≤ metaCap ∧
+    ((seekG fixed c m b o).r = .ok () → (seekG fixed c m b o).st.offset.toNat < (seekG fixed c m b o).st.dataUsed.toNat ∧ (seekG fixed c m b o).st.offset = o) := by
+  have hcl := cleared_le
+  cases fixed <;>
+  · unfold seekG
+    split
+    · simp [hm]
+    split
+    · split
+      · simp [hm]
+      · rename_i h; simp [hm]; rw [UInt64.not_le, UInt64.lt_iff_toNat_lt] at h; exact h
+    simp only [↓reduceIte, Bool.false_eq_true]
+    generalize ((c.src b).header &&& 0x7FFF).toUInt32 = S
+    split
+    · simp [hm, hcl]
+    split
+    · simp [hm, hcl]
+    split
+    · simp [hm, hcl]
+    rename_i hsz _
+    have hsz' : S.toNat ≤ metaCap := by
+      rw [UInt64.not_lt, UInt64.le_iff_toNat_le] at hsz
+      simpa [metaCap_eq] using hsz
+    split
+    · simp [hm, hcl, Access.inBounds]; exact hsz'
+    split
+    · split
+      · simp [hm, hcl, Access.inBounds]; exact hsz'
+      · rename_i ret hdec
+        have hret := hc b ret hdec
+        split
+        · simp [Access.inBounds, hsz', hret, hcl]
+        · rename_i hlt
+          rw [UInt64.not_le, UInt64.lt_iff_toNat_lt] at hlt
+          simp [Access.inBounds, hsz', hret]
+          simpa using hlt
+    · split
+      · simp [Access.inBounds, hsz', hcl]
+      · rename_i hlt
+        rw [UInt64.not_le, UInt64.lt_iff_toNat_lt] at hlt
+        simp [Access.inBounds, hsz']
+        simpa using hlt
+
 theorem seek_spec (c : MetaCfg) (hc : MetaCodecOk c) (m : MetaSt) (b o : UInt64)
     (hm : m.dataUsed.toNat ≤ metaCap) :
     (∀ a ∈ (seek c m b o).acc, a.inBounds) ∧ (seek c m b o).st.dataUsed.toNat ≤ metaCap ∧
-    ((seek c m b o).r = .ok () → (seek c m b o).st.offset.toNat < (seek c m b o).st.dataUsed.toNat ∧ (seek c m b o).st.offset = o) := by
-  unfold seek
-  split
-  · simp [hm]
-  split
-  · split
-    · simp [hm]
-    · rename_i h; simp [hm]; rw [UInt64.not_le, UInt64.lt_iff_toNat_lt] at h; exact h
-  simp only []
-  generalize ((c.src b).header &&& 0x7FFF).toUInt32 = S
-  split
-  · simp [hm]
-  split
-  · simp [hm]
-  split
-  · simp [hm]
-  rename_i hsz _
-  have hsz' : S.toNat ≤ metaCap := by
-    rw [UInt64.not_lt, UInt64.le_iff_toNat_le] at hsz
-    simpa [metaCap_eq] using hsz
-  split
-  · simp [hm, Access.inBounds]; exact hsz'
-  split
-  · split
-    · simp [hm, Access.inBounds]; exact hsz'
-    · rename_i ret hdec
-      have hret := hc b ret hdec
-      split
-      · simp [Access.inBounds, hsz', hret]
-      · rename_i hlt
-        rw [UInt64.not_le, UInt64.lt_iff_toNat_lt] at hlt
-        simp [Access.inBounds, hsz', hret]
-        simpa using hlt
-  · split
-    · simp [Access.inBounds, hsz']
-    · rename_i hlt
-      rw [UInt64.not_le, UInt64.lt_iff_toNat_lt] at hlt
-      simp [Access.inBounds, hsz']
-      simpa using hlt
+    ((seek c m b o).r = .ok () → (seek c m b o).st.offset.toNat < (seek c m b o).st.dataUsed.toNat ∧ (seek c m b o).st.offset = o) :=
+  seekG_spec true c hc m b o hm
 
-theorem refill_spec (c : MetaCfg) (hc : MetaCodecOk c) (m : MetaSt)
+theorem refill_spec (fixed : Bool) (c : MetaCfg) (hc : MetaCodecOk c) (m : MetaSt)
     (hm : m.dataUsed.toNat ≤ metaCap) (hoff : m.offset.toNat ≤ m.dataUsed.toNat) :
-    (∀ a ∈ (refill c m).1.acc, a.inBounds) ∧ (refill c m).1.st.dataUsed.toNat ≤ metaCap ∧
-    ((refill c m).1.r = .ok () →
-      (refill c m).2.toNat ≠ 0 ∧
-      (refill c m).1.st.offset.toNat + (refill c m).2.toNat ≤ (refill c m).1.st.dataUsed.toNat) := by
+    (∀ a ∈ (refill fixed c m).1.acc, a.inBounds) ∧ (refill fixed c m).1.st.dataUsed.toNat ≤ metaCap ∧
+    ((refill fixed c m).1.r = .ok () →
+      (refill fixed c m).2.toNat ≠ 0 ∧
+      (refill fixed c m).1.st.offset.toNat + (refill fixed c m).2.toNat ≤ (refill fixed c m).1.st.dataUsed.toNat) := by
   unfold refill
   simp only []
   split
-  · have hs := seek_spec c hc m m.nextBlock 0 hm
+  · have hs := seekG_spec fixed c hc m m.nextBlock 0 hm
     refine ⟨hs.1, hs.2.1, ?_⟩
     intro hok
     obtain ⟨hlt, heq⟩ := hs.2.2 hok
-    have h0 : (seek c m m.nextBlock 0).st.offset.toNat = 0 := by rw [heq]; rfl
+    have h0 : (seekG fixed c m m.nextBlock 0).st.offset.toNat = 0 := by rw [heq]; rfl
     simp only []
     omega
   · rename_i hd
@@ -107,7 +117,7 @@ theorem readLoop_safe (c : MetaCfg) (hc : MetaCodecOk c) (total : Nat) :
     have hoff : m.offset.toNat ≤ m.dataUsed.toNat := by
       simp at hguard
       exact UInt64.le_iff_toNat_le.1 hguard
-    have hr := refill_spec c hc m hm hoff
+    have hr := refill_spec true c hc m hm hoff
     simp only []
     split
     · rename_i e he
@@ -119,8 +129,8 @@ theorem readLoop_safe (c : MetaCfg) (hc : MetaCodecOk c) (total : Nat) :
       · exact hr.1 a ha
     · rename_i hok
       obtain ⟨hne, hle⟩ := hr.2.2 hok
-      have hmin : (if (refill c m).2 > size then size else (refill c m).2).toNat ≤ (refill c m).2.toNat ∧
-          (if (refill c m).2 > size then size else (refill c m).2).toNat ≤ size.toNat := by
+      have hmin : (if (refill true c m).2 > size then size else (refill true c m).2).toNat ≤ (refill true c m).2.toNat ∧
+          (if (refill true c m).2 > size then size else (refill true c m).2).toNat ≤ size.toNat := by
         split
         · rename_i hgt
           have := UInt64.lt_iff_toNat_lt.1 hgt
@@ -128,7 +138,7 @@ theorem readLoop_safe (c : MetaCfg) (hc : MetaCodecOk c) (total : Nat) :
         · rename_i hgt
           rw [UInt64.not_lt, UInt64.le_iff_toNat_le] at hgt
           omega
-      generalize (if (refill c m).2 > size then size else (refill c m).2) = diff at hmin
+      generalize (if (refill true c m).2 > size then size else (refill true c m).2) = diff at hmin
       apply ih
       · exact hr.2.1
       · have hle' : diff ≤ size := UInt64.le_iff_toNat_le.2 hmin.2
@@ -142,10 +152,10 @@ theorem readLoop_safe (c : MetaCfg) (hc : MetaCodecOk c) (total : Nat) :
         · subst ha; simp only [Access.inBounds]; have := hr.2.1; omega
         · subst ha; simp only [Access.inBounds]; omega
 
-theorem seek_ok (c : MetaCfg) (m : MetaSt) (b o : UInt64) (h : (seek c m b o).r = .ok ()) :
-    o.toNat < (seek c m b o).st.dataUsed.toNat ∧ (seek c m b o).st.offset = o := by
+theorem seekG_ok (fixed : Bool) (c : MetaCfg) (m : MetaSt) (b o : UInt64) (h : (seekG fixed c m b o).r = .ok ()) :
+    o.toNat < (seekG fixed c m b o).st.dataUsed.toNat ∧ (seekG fixed c m b o).st.offset = o := by
   revert h
-  unfold seek
+  unfold seekG
   split
   · simp
   split
@@ -175,8 +185,8 @@ theorem seek_ok (c : MetaCfg) (m : MetaSt) (b o : UInt64) (h : (seek c m b o).r 
       rw [UInt64.not_le, UInt64.lt_iff_toNat_lt] at hlt
       simpa using hlt
 
-theorem seek_ne_fuel (c : MetaCfg) (m : MetaSt) (b o : UInt64) : (seek c m b o).r ≠ .error .fuel := by
-  unfold seek
+theorem seekG_ne_fuel (fixed : Bool) (c : MetaCfg) (m : MetaSt) (b o : UInt64) : (seekG fixed c m b o).r ≠ .error .fuel := by
+  unfold seekG
   split
   · simp
   split
@@ -196,13 +206,19 @@ theorem seek_ne_fuel (c : MetaCfg) (m : MetaSt) (b o : UInt64) : (seek c m b o).
     · split <;> simp
   · split <;> simp
 
-theorem refill_ok_ne_zero (c : MetaCfg) (m : MetaSt) (h : (refill c m).1.r = .ok ()) : (refill c m).2 ≠ 0 := by
+theorem seek_ok (c : MetaCfg) (m : MetaSt) (b o : UInt64) (h : (seek c m b o).r = .ok ()) :
+    o.toNat < (seek c m b o).st.dataUsed.toNat ∧ (seek c m b o).st.offset = o := seekG_ok true c m b o h
+
+theorem seek_ne_fuel (c : MetaCfg) (m : MetaSt) (b o : UInt64) : (seek c m b o).r ≠ .error .fuel :=
+  seekG_ne_fuel true c m b o
+
+theorem refill_ok_ne_zero (fixed : Bool) (c : MetaCfg) (m : MetaSt) (h : (refill fixed c m).1.r = .ok ()) : (refill fixed c m).2 ≠ 0 := by
   revert h
   unfold refill
   simp only []
   split
   · intro h
-    have := (seek_ok c m m.nextBlock 0 h).1
+    have := (seekG_ok fixed c m m.nextBlock 0 h).1
     intro h0
     simp only [] at h0
     rw [h0] at this
@@ -213,11 +229,11 @@ theorem refill_ok_ne_zero (c : MetaCfg) (m : MetaSt) (h : (refill c m).1.r = .ok
     simp only [] at h0
     simp [h0]
 
-theorem refill_ne_fuel (c : MetaCfg) (m : MetaSt) : (refill c m).1.r ≠ .error .fuel := by
+theorem refill_ne_fuel (fixed : Bool) (c : MetaCfg) (m : MetaSt) : (refill fixed c m).1.r ≠ .error .fuel := by
   unfold refill
   simp only []
   split
-  · exact seek_ne_fuel _ _ _ _
+  · exact seekG_ne_fuel _ _ _ _ _
   · simp
 
 theorem readLoop_no_fuel (fixed : Bool) (c : MetaCfg) (total : Nat) :
@@ -240,21 +256,21 @@ theorem readLoop_no_fuel (fixed : Bool) (c : MetaCfg) (total : Nat) :
       intro h
       simp at h
       subst h
-      exact refill_ne_fuel c m he
+      exact refill_ne_fuel fixed c m he
     · rename_i hok
-      have hne := refill_ok_ne_zero c m hok
+      have hne := refill_ok_ne_zero fixed c m hok
       have hsz0 : size.toNat ≠ 0 := by
         intro h0; apply hsz; simp; exact UInt64.toNat_inj.1 (by simpa using h0)
-      have hp0 : (refill c m).2.toNat ≠ 0 := by
+      have hp0 : (refill fixed c m).2.toNat ≠ 0 := by
         intro h0; apply hne; exact UInt64.toNat_inj.1 (by simpa using h0)
-      have hmin : (if (refill c m).2 > size then size else (refill c m).2).toNat ≠ 0 ∧
-          (if (refill c m).2 > size then size else (refill c m).2).toNat ≤ size.toNat := by
+      have hmin : (if (refill fixed c m).2 > size then size else (refill fixed c m).2).toNat ≠ 0 ∧
+          (if (refill fixed c m).2 > size then size else (refill fixed c m).2).toNat ≤ size.toNat := by
         split
         · exact ⟨hsz0, Nat.le_refl _⟩
         · rename_i hgt
           rw [UInt64.not_lt, UInt64.le_iff_toNat_le] at hgt
           exact ⟨hp0, hgt⟩
-      generalize (if (refill c m).2 > size then size else (refill c m).2) = diff at hmin
+      generalize (if (refill fixed c m).2 > size then size else (refill fixed c m).2) = diff at hmin
       apply ih
       have hle' : diff ≤ size := UInt64.le_iff_toNat_le.2 hmin.2
       rw [UInt64.toNat_sub_of_le _ _ hle']
@@ -413,7 +429,7 @@ theorem streamFill_safe (bs : UInt32) (s : StreamSt) (w : UInt32) (l : BlkLoad) 
           omega
         · simp [Access.inBounds]; omega
   · split
-    · simp [hs]
+    · simp; exact hw
     · rename_i fsz
       split
       · simp
